@@ -639,6 +639,68 @@ func c06Case(run *evid.Run, i int, j *Journal) {
 		run.NonTrivial("look-alike/" + kind + "/" + where + "/" + h.Codec)
 	}
 
+	// (g) a validly signed NEW entry whose hash field names an entry the destination holds, filed in the offered
+	// log under its true hash (reachable from a valid new head): it may be merged under its own hash or refused,
+	// but the entry the destination validated earlier must stay what it is
+	for r, l := range x.Logs {
+		if l.Len() == 0 || (i+r)%3 != 0 || h.Codec == "pb" {
+			continue
+		}
+		lo := x.W.LogOpts(x.W.LogID)
+		lo.Entries = l.GetEntries()
+		lo.Heads = l.Heads().Slice()
+		dst, err := ipfslog.NewLog(x.W.Store.API(), x.W.Idents[0], lo)
+		if err != nil {
+			panic(err)
+		}
+		lo1 := x.W.LogOpts(x.W.LogID)
+		lo1.Entries = l.GetEntries()
+		lo1.Heads = l.Heads().Slice()
+		tmp, err := ipfslog.NewLog(x.W.Store.API(), x.W.Idents[0], lo1)
+		if err != nil {
+			panic(err)
+		}
+		n1, err1 := tmp.Append(x.W.Ctx, []byte(fmt.Sprintf("%d.%d/relabel-%d-1", h.Seed, h.Idx, r)), nil)
+		n2, err2 := tmp.Append(x.W.Ctx, []byte(fmt.Sprintf("%d.%d/relabel-%d-2", h.Seed, h.Idx, r)), nil)
+		if err1 != nil || err2 != nil {
+			continue
+		}
+		pool := l.Values().Slice()
+		victim := pool[rng.Intn(len(pool))]
+		fake := n1.Copy()
+		fake.SetHash(victim.GetHash())
+		ents := tmp.GetEntries()
+		ents.Set(n1.GetHash().String(), fake)
+		lo2 := x.W.LogOpts(x.W.LogID)
+		lo2.Entries = ents
+		lo2.Heads = []iface.IPFSLogEntry{n2}
+		src, err := ipfslog.NewLog(x.W.Store.API(), x.W.Idents[0], lo2)
+		if err != nil {
+			panic(err)
+		}
+		desc := fmt.Sprintf("copy-of-r%d <- its own entries + 2 new valid entries, the older of which carries the hash of the destination's entry %s and is filed under its true hash", r, hx.Short(victim.GetHash().String()))
+		j.Log(map[string]any{"case": i, "codec": h.Codec, "phase": "relabelled-entry", "desc": desc})
+		var jerr error
+		ok, dead, dump := guardCall(func() {
+			_, jerr = dst.Join(src, -1)
+			_ = dst.Values() // a replaced entry can point back at the heads: the traversal must still end
+		}, 60*time.Second)
+		run.Count("merges_offering_a_relabelled_entry", 1)
+		d := det("codec", h.Codec)
+		if !ok {
+			if dead {
+				run.Violate("C06/merge-never-returns", d, map[string]any{"case": i, "desc": desc, "blocked_goroutines": dump}, "merge of a relabelled entry (or reading the log afterwards) never returns (%s)", desc)
+			} else {
+				run.Inconclusive("merge of a relabelled entry did not return: " + desc)
+			}
+			return
+		}
+		if got, ok := dst.Get(victim.GetHash()); !ok || hx.ContentDigest(got) != hx.ContentDigest(victim) {
+			run.Violate("C06/held-entry-replaced", d, wit(desc), "after a merge (returned %v) Get() returns another entry under the hash of an entry the log held and had validated (%s)", jerr, desc)
+		}
+		run.NonTrivial("relabelled/" + h.Codec)
+	}
+
 	// (b') a log restored from storage with a restrictive controller still enforces it
 	for r, l := range x.Logs {
 		if l.Len() == 0 || i%2 != 0 {
